@@ -46,4 +46,8 @@ theorem gen_overlaps_pre (a b : Seg) :
   repeat' split
   all_goals first | rfl | simp
 
+-- `gen_overlaps_is_model` is not an equation between constants: both answers occur (receiver well formed)
+example : AdaptaVerif.Gen.OrthVisK.lineSegmentOverlaps (keyOf ⟨1, 3, 1, []⟩) (keyOf ⟨0, 2, 1, []⟩) = true ∧
+    AdaptaVerif.Gen.OrthVisK.lineSegmentOverlaps (keyOf ⟨3, 4, 1, []⟩) (keyOf ⟨0, 2, 1, []⟩) = false := by decide +kernel
+
 end AdaptaVerif.Props.C05OrthVisTie
